@@ -171,10 +171,28 @@ def c20_2(ctx):
                 elt, tgt, src, conds = sv.elt, sv.target, sv.iter, sv.conds
         ok = elt is not None and isinstance(elt, ast.Call) and unparse(elt.func) == 're.escape' and len(elt.args) == 1 \
             and unparse(elt.args[0]) == unparse(tgt) and not conds
+        sd = None
         if ok:
             sd = deref(ctx, h, src, joins[0])
             ok = unparse(sd) == lst or (isinstance(sd, ast.Call) and unparse(sd.func) == 'sorted' and unparse(sd.args[0]) == lst)
         detail = f'joined: {unparse(a)}'
+        # the order of the alternatives: a name that continues another one after a word boundary (`ld.x` / `ld`) must come first
+        longest = False
+        if isinstance(sd, ast.Call) and unparse(sd.func) == 'sorted' and unparse(sd.args[0]) == lst:
+            key = next((k.value for k in sd.keywords if k.arg == 'key'), None)
+            rev = next((k.value for k in sd.keywords if k.arg == 'reverse'), None)
+            if isinstance(key, ast.Lambda) and len(key.args.args) == 1:
+                x = key.args.args[0].arg
+                b = key.body
+                first = b.elts[0] if isinstance(b, ast.Tuple) and b.elts else b
+                longest = (unparse(first) == f'-len({x})' and rev is None) or \
+                          (unparse(first) == f'len({x})' and isinstance(rev, ast.Constant) and rev.value is True and not isinstance(b, ast.Tuple))
+            elif key is not None and unparse(key) == 'len' and isinstance(rev, ast.Constant) and rev.value is True:
+                longest = True
+        ctx.check(longest, 'escape:longer-names-first', h.site(joins[0]),
+                  'the alternatives are ordered longest name first (an alternation takes the first alternative that matches, and `.` is a word boundary)',
+                  f'order of the alternatives: {unparse(sd) if sd is not None else "?"} - with `ld` before `ld.x` only the `ld` of `ld.x` is classified, '
+                  f'and for the sets of the model the order follows the hash seed')
     ctx.check(ok, 'escape:_replace_token_with_regex_list', h.site(joins[0]) if joins else h.site(),
               'every name of the list is passed through re.escape before it is joined into the pattern', detail + ' - a name such as ma.hl also classifies maxhl')
     rr = returns(h)
@@ -437,6 +455,8 @@ def c20_state(ctx):
                 ctx.refute(f'model:mutated:{ctx.short(f)}:{t}', f.site(c), 'sets and lists obtained from the model are read only',
                            f'{unparse(c)[:80]} changes {t}, which is the model\'s own collection: every later placeholder sees the changed vocabulary')
     ctx.ok('model:scanned', '-', 'generator functions were scanned for changes to model collections', f'{n} found')
+    from rules.shared import no_getter_alias_mutation
+    no_getter_alias_mutation(ctx, ('bespokeasm.configgen', 'bespokeasm.assembler.model'), 'model')
 
 
 RULES = [c20_1, c20_2, c20_3, c20_4, c20_case, c20_state]
@@ -451,8 +471,9 @@ MUTANTS = [
     V('c20-zip-append', _S, "        archive_file = ZipFile(archive_fp, 'w')", "        archive_file = ZipFile(archive_fp, 'a')", 'C20.4'),
     V('c20-discarded-replace', _V, "        color_theme_xml = color_theme_xml.replace('##LANGUAGE_ID##', xml_escape(self.language_id))", "        color_theme_xml.replace('##LANGUAGE_ID##', xml_escape(self.language_id))", 'C20.1'),
     V('c20-theme-unescaped', _V, "        color_theme_xml = color_theme_xml.replace('##LANGUAGE_ID##', xml_escape(self.language_id))", "        color_theme_xml = color_theme_xml.replace('##LANGUAGE_ID##', self.language_id)", 'C20.4'),
-    V('c20-no-escape', _C, "join([re.escape(r) for r in regex_list])", "join(regex_list)", 'C20.2'),
-    V('c20-escape-wrong-var', _C, "        regex_str = '\\\\b' + '\\\\b|\\\\b'.join([re.escape(r) for r in regex_list]) + '\\\\b'", "        escaped = [re.escape(r) for r in regex_list]\n        ordered = sorted(regex_list, key=len, reverse=True)\n        regex_str = '\\\\b' + '\\\\b|\\\\b'.join(ordered if len(ordered) > 1 else escaped) + '\\\\b'", 'C20.2'),
+    V('c20-arrival-order', _C, "longest_first = sorted(regex_list, key=lambda name: (-len(name), name))", "longest_first = list(regex_list)", 'C20.2'),
+    V('c20-no-escape', _C, "join([re.escape(r) for r in longest_first])", "join(longest_first)", 'C20.2'),
+    V('c20-escape-wrong-var', _C, "        regex_str = '\\\\b' + '\\\\b|\\\\b'.join([re.escape(r) for r in longest_first]) + '\\\\b'", "        escaped = [re.escape(r) for r in longest_first]\n        ordered = sorted(regex_list, key=len, reverse=True)\n        regex_str = '\\\\b' + '\\\\b|\\\\b'.join(ordered if len(ordered) > 1 else escaped) + '\\\\b'", 'C20.2'),
     V('c20-macros-from-operations', _V, "                '##MACROS##',\n                self.model.macro_mnemonics", "                '##MACROS##',\n                self.model.operation_mnemonics", 'C20.3'),
     V('c20-forgot-registers-token', _S, '''            syntax_dict['contexts']['registers'][0]['match'] = self._replace_token_with_regex_list(
                 syntax_dict['contexts']['registers'][0]['match'],
@@ -468,5 +489,5 @@ MUTANTS = [
     V('c20-result-written-elsewhere', _V, "            grammar_json['repository']['registers']['match'] = self._replace_token_with_regex_list(\n                grammar_json['repository']['registers']['match'],", "            grammar_json['repository']['registers']['name'] = self._replace_token_with_regex_list(\n                grammar_json['repository']['registers']['match'],", 'C20.3'),
 ]
 TWINS = [
-    V('c20-t-genexp', _C, "join([re.escape(r) for r in regex_list])", "join(re.escape(name) for name in regex_list)"),
+    V('c20-t-genexp', _C, "join([re.escape(r) for r in longest_first])", "join(re.escape(name) for name in longest_first)"),
 ]
